@@ -200,3 +200,86 @@ def check_truthiness(ctx: CheckContext, p: Program, r: Resolver, funcs: List[Fun
                        f"`{ast.unparse(op)}` is a {q[0]} ({q[1]}) and is tested for truth in `{ast.unparse(test)[:90]}`: the legitimate value 0 "
                        f"is handled as if the quantity were missing")
     return n
+
+
+# --------------------------------------------------------------------------------------------------------------------------
+# ZERO-CMP: a temperature is never compared with the literal 0
+# --------------------------------------------------------------------------------------------------------------------------
+
+_ARRAY_WORDS = {"vals", "values", "arr", "array", "col", "column", "list", "grid", "levels", "points"}
+
+
+def _temperature_operand(fi: FuncInfo, e: ast.AST) -> Optional[str]:
+    """how we know that `e` is an absolute temperature (a scalar, or an array / column of temperatures); None if it is not provably one"""
+    if isinstance(e, ast.Call) and isinstance(e.func, ast.Name) and e.func.id in ("float", "get_value", "getattr", "round") and e.args:
+        return _temperature_operand(fi, e.args[0])
+    if isinstance(e, ast.Call) and isinstance(e.func, ast.Attribute) and e.func.attr in ("to_numpy", "to_list", "tolist", "copy", "astype", "min", "max") \
+            and not e.args:
+        return _temperature_operand(fi, e.func.value)
+    if isinstance(e, ast.Call) and isinstance(e.func, ast.Attribute) and isinstance(e.func.value, ast.Name) and e.func.value.id in ("np", "numpy") \
+            and e.func.attr in ("asarray", "array", "min", "max", "amin", "amax") and e.args:
+        return _temperature_operand(fi, e.args[0])
+    # table column  X.col[PT.T.value] / X[PT.T.value] / X.loc[i, PT.T.value] / X["T"]
+    if isinstance(e, ast.Subscript):
+        sl = e.slice.elts[-1] if isinstance(e.slice, ast.Tuple) and e.slice.elts else e.slice
+        txt = ast.unparse(sl)
+        if txt in ("PT.T.value", "ProblemTableLabel.T.value", "PT.T", "'T'"):
+            return f"temperature column `{ast.unparse(e)[:60]}`"
+    if isinstance(e, (ast.Name, ast.Attribute)):
+        name = e.id if isinstance(e, ast.Name) else e.attr.lstrip("_")
+        if isinstance(e, ast.Name) and (_annotation_excludes(fi, name) and not any(
+                a.arg == name and a.annotation is not None and any(k in ast.unparse(a.annotation) for k in ("ndarray", "List", "list", "Sequence", "Iterable"))
+                for a in fi.params)):
+            return None
+        raw = [t for t in __import__("re").split(r"[\W_]+", __import__("re").sub(r"([a-z0-9])([A-Z])", r"\1_\2", name).lower()) if t]
+        if not raw:
+            return None
+        toks = set(raw)
+        if toks & {"dt", "delta", "diff", "difference", "span", "tol", "lift", "approach", "glide", "n", "num", "count", "idx", "index", "row", "mask"}:
+            return None
+        if raw[0] == "t" and len(raw) >= 2 and (set(raw[1:]) <= _ARRAY_WORDS | _TEMP_SECOND) and (set(raw[1:]) & _ARRAY_WORDS):
+            return f"array of temperatures '{name}'"
+        if toks & {"temps", "temperatures"}:
+            return f"array of temperatures '{name}'"
+    q = _quantity_of(fi, e) if isinstance(e, (ast.Name, ast.Attribute, ast.Subscript)) else None
+    if q and q[0] in ("temperature", "pinch temperature"):
+        return f"{q[0]} ({q[1]})"
+    return None
+
+
+def _is_zero(e: ast.AST) -> bool:
+    if isinstance(e, ast.UnaryOp) and isinstance(e.op, (ast.USub, ast.UAdd)):
+        return _is_zero(e.operand)
+    return isinstance(e, ast.Constant) and not isinstance(e.value, bool) and isinstance(e.value, (int, float)) and e.value == 0
+
+
+def check_zero_compare(ctx: CheckContext, p: Program, r: Resolver, funcs: List[FuncInfo], rule: str = "ZERO-CMP") -> int:
+    ctx.rule(rule, "no absolute temperature (scalar, array or table column; differences, lifts and spans excluded) is compared with the literal 0: "
+                   "0 degC has no special role on the temperature axis, so such a test silently filters or re-routes sub-zero (or translated) problems; "
+                   "one obligation per comparison that has a literal 0 on one side")
+    n = 0
+    seen = set()
+    for f in funcs:
+        if isinstance(f.node, ast.Lambda):
+            continue
+        for node in body_nodes(f):
+            if not isinstance(node, ast.Compare):
+                continue
+            chain = [node.left] + list(node.comparators)
+            for a, op, b in zip(chain, node.ops, chain[1:]):
+                if not isinstance(op, (ast.Lt, ast.LtE, ast.Gt, ast.GtE, ast.Eq, ast.NotEq)):
+                    continue
+                other = b if _is_zero(a) else a if _is_zero(b) else None
+                if other is None or _is_zero(other):
+                    continue
+                key = f"{f.qualname}:zero-compare:{ast.unparse(other)}"
+                if key in seen:
+                    continue
+                seen.add(key)
+                how = _temperature_operand(f, other)
+                n += 1
+                ctx.ob(rule, key, f"{f.module.relpath}:{node.lineno}", how is None,
+                       "" if how is None else
+                       f"`{ast.unparse(node)[:90]}` compares a {how} with the literal 0: temperatures at or below 0 degC are legitimate and are "
+                       f"filtered / re-routed by this test")
+    return n
